@@ -45,6 +45,21 @@ ASSUMPTIONS = [
 ]
 
 WRITE_OPS = {"write"}
+KEEP_CALLS = {"build_trees"}  # helpers that stay calls when a method is analysed with its same-module helpers expanded
+
+
+def _methods(prog, ci):
+    """methods of a class with their same-module helper calls expanded in place (see yawsa.inline)"""
+    from ..inline import inlined
+
+    return [inlined(prog, m, keep=KEEP_CALLS) for m in ci.methods.values()]
+
+
+def _method(prog, ci, name):
+    from ..inline import inlined
+
+    m = ci.methods.get(name)
+    return inlined(prog, m, keep=KEEP_CALLS) if m is not None else None
 
 
 def _fs_nodes(prog, fi: FuncInfo, *, deep: bool = True):
@@ -74,7 +89,7 @@ def _tree_roles(prog):
     """(class, marker leaf, content leaf) of the tree cache, by role."""
     S = summaries(prog)
     for ci in prog.classes:
-        init = ci.methods.get("__init__")
+        init = _method(prog, ci, "__init__")
         if init is None:
             continue
         ex = {path_leaf(prog, init, e.subject, at=e.call) for e in S.direct(init) if e.kind == "fs" and e.op == "exists" and e.subject is not None}
@@ -82,7 +97,7 @@ def _tree_roles(prog):
         if not ex:
             continue
         content = set()
-        for m in ci.methods.values():
+        for m in _methods(prog, ci):
             for c in calls_in(m):
                 if any(t == "pickle.load" for t in prog.resolve_call(m, c).ext_names()):
                     leaf = path_leaf(prog, m, c.args[0], at=c) if c.args else None
@@ -140,7 +155,7 @@ def rule_r1(prog, res) -> None:
     # (b) trees: marker opened for writing only after the content file's with-block was left normally
     ci, tmark, tcont = _tree_roles(prog)
     nb = 0
-    for m in ci.methods.values():
+    for m in _methods(prog, ci):
         cfg, effs = _fs_nodes(prog, m, deep=False)
         mwrite = [nd for nd, e, leaf, _ in effs if leaf == tmark and _is_write(e)]
         cwrite = [nd for nd, e, leaf, _ in effs if leaf == tcont and _is_write(e)]
@@ -173,7 +188,7 @@ def rule_r2(prog, res) -> None:
     """marker invalidated before guarded content is rewritten"""
     ci, tmark, tcont = _tree_roles(prog)
     n = 0
-    for m in ci.methods.values():
+    for m in _methods(prog, ci):
         cfg, effs = _fs_nodes(prog, m, deep=False)
         trunc = [nd for nd, e, leaf, _ in effs if leaf == tcont and _is_truncating(e) and e.op == "open"]
         if not trunc:
@@ -334,7 +349,7 @@ def rule_r3(prog, res) -> None:
         else:
             res.violation("C08.R3", r, r.node, f"'{tcont}' is read outside an instance of {ci.name}: the marker '{tmark}' is not checked first", key_extra="trees-read-without-instance")
     # (b) the constructor raises when the marker is missing
-    init = ci.methods["__init__"]
+    init = _method(prog, ci, "__init__")
     cfg = cfg_of(init.node)
     tests = [t for t in cfg.nodes if t.kind == "test" and any(isinstance(a, ast.Attribute) and a.attr in ("exists", "is_file") for a in ast.walk(t.expr))]
     okc = False
@@ -350,7 +365,7 @@ def rule_r3(prog, res) -> None:
     else:
         res.violation("C08.R3", init, init.node, f"constructor can complete without the marker '{tmark}' being present", key_extra="ctor-without-marker")
     # (c) instances made with __new__ are returned only after the marker was written
-    for m in ci.methods.values():
+    for m in _methods(prog, ci):
         cfgm, effs = _fs_nodes(prog, m, deep=False)
         news = [nd for nd in cfgm.nodes if any(isinstance(c.func, ast.Attribute) and c.func.attr == "__new__" for c in nd.calls())]
         if not news:
